@@ -4,6 +4,7 @@ copy of blueprint/conversions.rs. Same package (and Kani target directory) as th
 from __future__ import annotations
 
 import hashlib
+import json
 import re
 from pathlib import Path
 
@@ -18,7 +19,10 @@ TARGET_REL = "runtime/pavex/src/blueprint/conversions.rs"
 
 def prepare(sc: Scratch) -> dict:
     target = sc.repo / TARGET_REL
-    hsrc = HARNESS_SRC.read_text()
+    import shutil
+    nd = sc.root / "nd_c19.rs"
+    shutil.copy(VERIF / "harness" / "nd.rs", nd)
+    hsrc = HARNESS_SRC.read_text().replace("@ND@", str(nd))
     target.write_text(target.read_text() + "\n" + hsrc)
     specs = parse_harness_specs(hsrc)
     for s in specs:
@@ -43,40 +47,40 @@ def prepare(sc: Scratch) -> dict:
     }
 
 
-def _apply_and_play(sc: Scratch, test: str, log_path: Path):
-    target = sc.repo / TARGET_REL
-    src = target.read_text()
-    idx = src.rfind("}")
-    target.write_text(src[:idx] + "\n" + test + "\n}\n")
-    m = re.search(r"fn (kani_concrete_playback_\w+)", test)
-    return c15._run_playback(sc.repo / "runtime" / "pavex", m.group(1) if m else "kani_concrete_playback", log_path)
+def _native(sc: Scratch, prep: dict, harness: str, log_path: Path) -> tuple[bool | None, str, list]:
+    """Run the harness natively on the REAL crates (it has no shims) on pseudo-random inputs until it fails
+    (harness/nd.rs). True = a failing input exists: the real code misbehaves on it."""
+    from .. import session
+    import os
+    finds = session.native_search(prep, harness, log_path, int(os.environ.get("VERIF_SEED", "0") or 0))
+    text = Path(log_path).read_text(errors="replace") if Path(log_path).exists() else ""
+    if finds:
+        msgs = [l.get("msg", "") for l in finds[0] if l.get("kind") == "panic"]
+        return True, "the harness fails natively on the real crates: " + "; ".join(msgs)[:300], finds
+    if re.search(r"NATIVE-SEARCH-NONE", text):
+        return False, "no failing input found natively", finds
+    return None, "the native search did not run (see %s)" % log_path, finds
 
 
 def confirm(sc: Scratch, prep: dict, r: HarnessResult, log_dir: Path) -> dict:
-    """Kani's concrete playback: the solver's values as a unit test of the real crate (the harness runs on the
-    real, unshimmed code, so a failing native run of the same assertions IS the reproduction)."""
-    r2 = core.run_kani(prep["pkg_dir"], prep["target_dir"], r.spec, log_dir, prep.get("kani_args"), playback="print")
-    text = Path(r2.log_path).read_text(errors="replace")
-    tests = [t for t in re.findall(r"Concrete playback unit test for `[^`]+`:\n```\n(.*?)```", text, re.S) if "Check for `cover`" not in t]
+    """The harness runs on the real, unshimmed crates, so executing it natively on concrete inputs is the
+    confirmation (Kani's own concrete playback needed 29 GB for the nesting harness)."""
     role = f"{r.spec.name}: " + "; ".join(sorted({c["description"] for c in r.failed}))
-    if not tests:
-        return {"reproduced": None, "role": role, "detail": "Kani produced no concrete playback test"}
-    test = tests[0]
-    h = hashlib.sha256(test.encode()).hexdigest()[:12]
+    ok, detail, finds = _native(sc, prep, r.spec.name, log_dir / f"{r.spec.name}.native-search.log")
     rep_dir = VERIF / "replays" / "generated" / PID
     rep_dir.mkdir(parents=True, exist_ok=True)
-    rep = rep_dir / f"{r.spec.name}-{h}.rs"
-    rep.write_text(f"// replay for {PID} harness {r.spec.name}\n// failed: {role}\n// harness={r.spec.name}\n" + test)
-    ok, detail = _apply_and_play(sc, test, log_dir / f"{r.spec.name}.native.log")
+    script = {"harness": r.spec.name, "failed": role, "detail": detail}
+    h = hashlib.sha256(json.dumps(script, sort_keys=True).encode()).hexdigest()[:12]
+    rep = rep_dir / f"{r.spec.name}-{h}.json"
+    rep.write_text(json.dumps(script, indent=1) + "\n")
     return {"reproduced": ok, "replay": str(rep), "role": role, "detail": detail}
 
 
 def replay(path: Path) -> int:
-    text = path.read_text()
-    test = "\n".join(l for l in text.splitlines() if not l.startswith("// "))
+    script = json.loads(path.read_text())
     with Scratch(PID + "-replay") as sc:
-        prepare(sc)
-        ok, detail = _apply_and_play(sc, test, CACHE / "logs" / PID / "replay.native.log")
+        prep = prepare(sc)
+        ok, detail, _ = _native(sc, prep, script["harness"], CACHE / "logs" / PID / "replay.native.log")
     log(f"replay {path}: {detail}")
     if ok is True:
         print(f"VIOLATION property={PID} replay={path}", flush=True)
